@@ -152,10 +152,14 @@ var (
 	tdUniverse = []string{"cluster.local", "td2", "", "cluster.local"}
 )
 
-func genIdentity(r *wire.Rng) string {
-	td, ns, sa := wire.Pick(r, tdUniverse), wire.Pick(r, nsUniverse), wire.Pick(r, saUniverse)
+// mutateIdentity renders (td, ns, sa) as a credential string: mostly well-formed, sometimes one of the
+// malformed variants that must not parse.
+func mutateIdentity(r *wire.Rng, td, ns, sa string, malformed int) string {
 	good := "spiffe://" + td + "/ns/" + ns + "/sa/" + sa
-	switch r.Intn(20) {
+	if r.Intn(100) >= malformed {
+		return good
+	}
+	switch r.Intn(10) {
 	case 0:
 		return td + "/ns/" + ns + "/sa/" + sa // no scheme
 	case 1:
@@ -167,7 +171,7 @@ func genIdentity(r *wire.Rng) string {
 	case 4:
 		return "SPIFFE://" + td + "/ns/" + ns + "/sa/" + sa
 	case 5:
-		return "spiffe://" + td + "/ns/" + ns + "/sa/" // empty service account
+		return "spiffe://" + td + "/ns/" + ns + "/sa/" // empty service account (parses)
 	case 6:
 		return "spiffe://" + td + "/x/ns/" + ns + "/sa/" + sa
 	case 7:
@@ -175,10 +179,44 @@ func genIdentity(r *wire.Rng) string {
 	case 8:
 		return wire.Pick(r, []string{"", "spiffe://", "spiffe:////", "dns.name.example", "spiffe://a/ns/b/sa", "spiffe://ns/ns/ns/sa/sa",
 			"spiffe://td/ns/ns1/sa/sa1?x=1", "spiffe://td/ns/ns1,spiffe://td/ns/ns2/sa/sa1", "spiffe://td/ns/é/sa/世"})
-	case 9:
-		return "spiffe://" + td + "/NS/" + ns + "/sa/" + sa
 	}
-	return good
+	return "spiffe://" + td + "/NS/" + ns + "/sa/" + sa
+}
+
+func genIdentity(r *wire.Rng) string {
+	return mutateIdentity(r, wire.Pick(r, tdUniverse), wire.Pick(r, nsUniverse), wire.Pick(r, saUniverse), 45)
+}
+
+// genIDListFor builds a credential list for a client claiming (ns, sa): some entries prove the claim,
+// some are well-formed for other namespaces/accounts, some are malformed.
+func genIDListFor(r *wire.Rng, ns, sa string, allowNil bool) string {
+	if allowNil && r.Chance(1, 8) {
+		return "nil"
+	}
+	n := 1 + r.Intn(4)
+	if r.Chance(1, 2) {
+		n = 1
+	}
+	if r.Chance(1, 15) {
+		n = 0
+	}
+	var l []string
+	for i := 0; i < n; i++ {
+		td := wire.Pick(r, tdUniverse)
+		switch r.Intn(6) {
+		case 0, 1, 2:
+			s := sa
+			if s == "" || r.Chance(1, 5) {
+				s = wire.Pick(r, saUniverse)
+			}
+			l = append(l, mutateIdentity(r, td, ns, s, 15))
+		case 3:
+			l = append(l, mutateIdentity(r, td, wire.Pick(r, nsUniverse), sa, 10))
+		default:
+			l = append(l, genIdentity(r))
+		}
+	}
+	return wire.EncList(l)
 }
 
 func genIDList(r *wire.Rng, allowNil bool) string {
@@ -197,20 +235,27 @@ func genIDList(r *wire.Rng, allowNil bool) string {
 }
 
 var (
-	nodeTypes = []string{"sidecar", "router", "waypoint", "ztunnel", "agentgateway", "sidecar", "router", "ingress", "", "Sidecar"}
-	ipPicks   = []struct {
+	nodeTypes = []string{"sidecar", "router", "waypoint", "ztunnel", "agentgateway", "sidecar", "router", "sidecar", "router", "sidecar", "router",
+		"ingress", "", "Sidecar"}
+	ipPicks = []struct {
 		ip string
 		ok bool
-	}{{"1.2.3.4", true}, {"10.0.0.1", true}, {"fe80::1", true}, {"", false}, {"notanip", false}, {"1.2.3", false}, {"1.2.3.4", true}}
-	domPicks = []string{"ns1.svc.cluster.local", "ns2.svc.cluster.local", "istio-system.svc.cluster.local", "nodots", "", ".lead", "ns1.", "n.s.x",
-		"ns1.svc.cluster.local", "ns2.svc.cluster.local"}
+	}{{"1.2.3.4", true}, {"10.0.0.1", true}, {"fe80::1", true}, {"1.2.3.4", true}, {"10.1.1.1", true}, {"::1", true}, {"", false}, {"notanip", false},
+		{"1.2.3", false}}
 )
 
-func genNode(r *wire.Rng) (string, bool) {
-	ty, ip, dom := wire.Pick(r, nodeTypes), wire.Pick(r, ipPicks), wire.Pick(r, domPicks)
+// genNode renders a node id whose DNS domain is `dom`; mostly well-formed.
+func genNode(r *wire.Rng, dom string) (string, bool) {
+	ty, ip := wire.Pick(r, nodeTypes[:11]), wire.Pick(r, ipPicks[:6])
+	if r.Chance(1, 10) {
+		ty = wire.Pick(r, nodeTypes)
+	}
+	if r.Chance(1, 8) {
+		ip = wire.Pick(r, ipPicks)
+	}
 	id := "pod-" + strconv.Itoa(r.Intn(3)) + "." + wire.Pick(r, nsUniverse)
 	parts := []string{ty, ip.ip, id, dom}
-	switch r.Intn(16) {
+	switch r.Intn(30) {
 	case 0:
 		parts = parts[:3]
 	case 1:
@@ -233,7 +278,8 @@ func genAuth(seed uint64, n int, outp string) {
 			case 0:
 				out.Line("pid", wire.Enc(genIdentity(r)))
 			case 1, 2:
-				out.Line("check", wire.Enc(wire.Pick(r, nsUniverse)), wire.Enc(wire.Pick(r, saUniverse)), genIDList(r, false))
+				cns, csa := wire.Pick(r, nsUniverse), wire.Pick(r, saUniverse)
+				out.Line("check", wire.Enc(cns), wire.Enc(csa), genIDListFor(r, cns, csa, false))
 			case 3:
 				peerKind := wire.Pick(r, []string{"none", "plain", "tls", "tls", "tls"})
 				toks := []string{"authn", wire.B(r.Chance(5, 6)), peerKind, wire.B(r.Chance(1, 5))}
@@ -246,16 +292,29 @@ func genAuth(seed uint64, n int, outp string) {
 				}
 				out.Line(toks...)
 			default:
-				node, ipok := genNode(r)
-				metaNs := ""
-				if r.Chance(2, 3) {
-					metaNs = wire.Pick(r, nsUniverse)
+				// the namespace the client wants to act as, expressed through metadata, the DNS domain, or both
+				cns := wire.Pick(r, []string{"ns1", "ns2", "istio-system", "ns1", "ns2", "n.s", "NS1"})
+				metaNs, dom := cns, cns+".svc.cluster.local"
+				switch r.Intn(12) {
+				case 0, 1, 2:
+					metaNs = "" // namespace only through the DNS domain (first label; "n.s" yields "n")
+				case 3:
+					dom = wire.Pick(r, []string{"ns1", "ns2", "istio-system"}) + ".svc.cluster.local" // conflicting domain: metadata wins
+				case 4:
+					metaNs, dom = "", wire.Pick(r, []string{"nodots", "", ".lead"}) // no namespace claimed at all
+				case 5:
+					dom = wire.Pick(r, []string{"nodots", "", "ns1.", "x.y"})
+				}
+				eff := metaNs
+				if eff == "" {
+					eff = strings.Split(dom, ".")[0]
 				}
 				metaSA := ""
 				if r.Chance(1, 2) {
 					metaSA = wire.Pick(r, saUniverse)
 				}
-				out.Line("conn", wire.B(r.Chance(7, 8)), wire.Enc(node), wire.B(ipok), wire.Enc(metaNs), wire.Enc(metaSA), genIDList(r, true))
+				node, ipok := genNode(r, dom)
+				out.Line("conn", wire.B(r.Chance(9, 10)), wire.Enc(node), wire.B(ipok), wire.Enc(metaNs), wire.Enc(metaSA), genIDListFor(r, eff, metaSA, true))
 			}
 		}
 	}
